@@ -153,8 +153,49 @@ func genSeed(r *hx.Rng) int64 {
 	}
 }
 
+// exhaustive block of the thorough tier: every seat list of length 1..5 over operators {0,1,2,3}
+// (all orders), every requested count 0..len+1: all key-generation retry counts (kgall) for two
+// seeds and signing for retry counts 0..2.
+func genExhaustive() []string {
+	var out []string
+	var seats []int
+	streams := map[int64]string{}
+	st := func(seed int64) string {
+		if _, ok := streams[seed]; !ok {
+			streams[seed] = stream(seed, 16)
+		}
+		return streams[seed]
+	}
+	var rec func()
+	rec = func() {
+		if len(seats) > 0 {
+			for k := 0; k <= len(seats)+1; k++ {
+				for _, seed := range []int64{0, 7} {
+					out = append(out, fmt.Sprintf("kgall %s %d %d %s", hx.JoinInts(seats), seed, k, st(seed)))
+				}
+				for retry := 0; retry < 3; retry++ {
+					out = append(out, fmt.Sprintf("sg %s %d %d %d %s", hx.JoinInts(seats), 3, retry, k, st(3+int64(retry))))
+				}
+			}
+		}
+		if len(seats) == 5 {
+			return
+		}
+		for o := 0; o < 4; o++ {
+			seats = append(seats, o)
+			rec()
+			seats = seats[:len(seats)-1]
+		}
+	}
+	rec()
+	return out
+}
+
 func gen(r *hx.Rng, n int, tier string) []string {
 	var ops []string
+	if tier == "thorough" {
+		ops = append(ops, genExhaustive()...)
+	}
 	for i := 0; i < n; i++ {
 		seats := genSeats(r)
 		k := genK(r, len(seats))
